@@ -18,6 +18,8 @@ DOC = {
         'C16.R3': 'every string fragment glob_to_regex emits for an operator starts with a character of the stop set (magic_chars + {?,*}); literal characters go through escape()',
         'C16.R4': 'the fixed prefix is lower-cased iff is_partial_match lower-cases the candidate (both controlled by case_insensitive)',
         'C16.R6': 'Pattern::regex_with anchors the full-match regex at both ends (^...$) and the prefix regex at the start (^...); matches / matches_partially use the anchored one, matches_prefix the prefix one',
+        'C16.R10': '`**` crosses every character a path can contain: the fragment emitted for `**` is `.*`, so the regex must be built with dot_matches_new_line(true) (or the fragment must carry its own (?s) flag); `*` and `?` are negated classes and match a newline anyway',
+        'C16.R9': 'regex source text is edited at its end (anchor stripping, suffix tests) only with the escape state known: a trailing metacharacter is removed / recognised only after counting the backslashes before it (pattern.rs: regex_with, matches_subtree)',
         'C16.R8': 'the exclude-side pruning predicate of matches_dir holds for the whole subtree (re-evaluates C09.R9)',
         'C16.R7': 'glob_to_regex: inside a bracket group the literal-character parser refuses exactly the delimiters of that group (open tag, separator, close tag taken from the group\'s own parser), no more and no fewer; at top level it refuses nothing; one such arm per Scope variant',
         'C16.R5': 'the glob translator joins every parsed token and every alternative: no element-dropping or reordering adaptor (filter, skip, take, dedup, unique, retain, sort, ...) between the parser and the joined regex',
@@ -39,6 +41,8 @@ def run(ctx):
     r7(ctx, lib)
     from . import c09
     c09.r9(ctx, 'C16.R8')
+    r9(ctx, lib)
+    r10(ctx, lib)
     if ctx.tier == 'thorough' and not getattr(ctx, 'sibling', None):
         from .. import sweep
         sweep.units(ctx, 'C16.R1')
@@ -355,3 +359,46 @@ def r7(ctx, lib):
                       v, repr(''.join(sorted(got))) if got is not None else 'nothing (no arm)', repr(''.join(sorted(want))),
                       'a refused non-delimiter cannot appear in the group at all, the group stops parsing and the whole glob silently degrades to a literal' if got and got - want else
                       'an accepted delimiter is swallowed as a literal and the group never closes'))
+
+
+def r9(ctx, lib):
+    """escape-aware edits at the end of regex text"""
+    rule = 'C16.R9'
+    n = 0
+    for fn in ('pattern::Pattern::regex_with', 'pattern::Pattern::matches_subtree'):
+        b = ctx.need_body(rule, fn)
+        if b is None:
+            continue
+        bodies = [b] + [lib.body(c) for c in lib.closures_of(b.path)]
+        edits = [c for c in b.calls(r'str::<impl str>::(trim_end_matches|trim_right_matches|strip_suffix|ends_with)$') if not c.exp]
+        # parity test: a closure comparing a char with a backslash + a remainder by 2 of a count
+        has_bs = any("'\\\\'" in (const_val(o) or '') for x in bodies for blk in x.blocks for st in blk['stmts'] for o in ([st['rv'].get('a'), st['rv'].get('b')] if st['rv']['k'] == 'bin' else []) if isinstance(o, dict))
+        has_par = any(st['rv']['k'] == 'bin' and st['rv'].get('op') == 'Rem' for x in bodies for blk in x.blocks for st in blk['stmts'])
+        for c in edits:
+            n += 1
+            what = c.path.rsplit('::', 1)[-1]
+            ctx.check(has_bs and has_par, rule, '%s|%s' % (fn, what), c.where(), '%s on regex text next to a backslash-parity test' % what,
+                      '%s is applied to regex source text without looking at the backslashes before the matched character: for a pattern ending in an escaped metacharacter '
+                      '(glob `*a$` -> `[^/]*a\\$`) the `$` of `\\$` is taken for an anchor, the text is left with a dangling backslash and Regex::new(..).unwrap() panics' % what)
+    ctx.floor(rule, 'edits at the end of regex text in pattern.rs', n, 2)
+
+
+def r10(ctx, lib):
+    rule = 'C16.R10'
+    g = ctx.need_body(rule, 'pattern::Pattern::glob_to_regex')
+    rn = ctx.need_body(rule, 'regex::Regex::new')
+    if g is None or rn is None:
+        return
+    frags = []
+    for cp in lib.closures_of(g.path):
+        cb = lib.body(cp)
+        for v in [const_val(o) for blk in cb.blocks for st in blk['stmts'] for o in ([st['rv'].get('op')] if isinstance(st['rv'].get('op'), dict) else [])] + [const_val(a) for c in cb.calls() for a in c.args]:
+            if v and re.search(r'\.\*', v):
+                frags.append((cb, v))
+    if not ctx.floor(rule, 'fragments with `.*` emitted by the glob translator', len(frags), 1, g.where()):
+        return
+    own_flag = all('(?s' in v for _, v in frags)
+    flag = [c for c in rn.calls(r'RegexBuilder::dot_matches_new_line$') if const_bool(c.args[1]) is True]
+    ctx.check(own_flag or bool(flag), rule, 'regex::Regex::new|dot-matches-newline', rn.where(), '`.` matches a newline in the regexes built for patterns',
+              'the glob translator emits `.*` for `**` but the regex is built without dot_matches_new_line: `**` stops at a newline in a file or directory name, while `*` ([^/]*) crosses it: '
+              "`--exclude '**/g'` does not exclude `a\\nb/g`, `--path '**/f'` misses `a\\nb/f`")
